@@ -55,6 +55,14 @@ def cases(draw, tier):
     return case
 
 
+@st.composite
+def literal_cases(draw, tier):
+    """Boundary class: integer literals at and beyond the int32 range (F-I lives here)."""
+    case = draw(gen.kernel_cases(max_leaves=3, big_literals=True, literal_rate=45, value_class="exact", min_dim=1))
+    case["capacity"] = None
+    return case
+
+
 def setup(tier, seed, shard):
     return {"worker": Worker()}
 
@@ -117,7 +125,10 @@ def check(case, ctx=None):
     return result(fails, labels, nontrivial, kcheck.case_id(case), kcheck.sample_of(case), extra)
 
 
-STREAMS = {"main": {"strategy": cases, "check": check, "setup": setup, "teardown": teardown}}
+STREAMS = {
+    "main": {"strategy": cases, "check": check, "setup": setup, "teardown": teardown},
+    "literals": {"strategy": literal_cases, "check": check, "setup": setup, "teardown": teardown},
+}
 
 
 def still_fails(bucket):
@@ -151,6 +162,7 @@ def run(chk):
     n = 480 if chk.tier == "quick" else 40000
     stats = run_stream(__name__, "main", chk.tier, chk.seed, n)
     chk.absorb(stats, shrink=shrink_case)
+    chk.absorb(run_stream(__name__, "literals", chk.tier, chk.seed, 160 if chk.tier == "quick" else 4000), shrink=shrink_case)
 
 
 def health(cov):
